@@ -228,7 +228,7 @@ def unArith (asIs : Bool) (ctxForm : Bool) (op : String) (a : FArg) (p : Nat) : 
       let ex := 1 / q B x
       pure (chkContract asIs B m p ex (isRepresentableQ B p ex) r (ok (roundedStr r p)))
   | "sqrt" =>
-    match ctxSqrt B m coarseNone p x with
+    match ctxSqrt B m coarseNone natSqrtRem p x with
     | .error k => pure (Dashu.Driver.panic k.name)
     | .ok r =>
       let s := ok (roundedStr r p)
